@@ -496,7 +496,9 @@ def run(ctx: Ctx):
     ctx.floor("list-valued LSPModel fields", len(list_fields), 5)
     docs = []
     for di in range(3):
-        d = {n: [f"{n}-{di}-a", f"{n}-{di}-b"] for n in list_fields}
+        # later documents re-declare something the first one has (`shared`) and repeat an entry of their own: a merge
+        # is concatenation, not a set union
+        d = {n: [f"{n}-{di}-a", f"{n}-{di}-b", f"{n}-shared"] + ([f"{n}-{di}-a"] if di == 2 else []) for n in list_fields}
         d["metaData"] = {"version": f"v{di}"}
         docs.append(d)
     pristine = _copy.deepcopy(docs)
